@@ -68,7 +68,7 @@ Proof.
     destruct (Nat.lt_ge_cases k (length (st_srcs st))) as [Hk|Hk].
     + destruct (Nat.eq_dec j k) as [->|Hjk].
       * rewrite nth_upd_eq by assumption.
-        destruct (ds_write_prefix (weq (vm_eq v)) (nth k (st_srcs st) []) es) as (w & -> & _). eauto.
+        destruct (ds_write_prefix (weq (vm_eq v)) (vm_dup v) (nth k (st_srcs st) []) es) as (w & -> & _). eauto.
       * rewrite nth_upd_neq by congruence. exists []. now rewrite app_nil_r.
     + rewrite upd_ge by assumption. exists []. now rewrite app_nil_r.
   - apply prefixK_refl.
